@@ -152,6 +152,16 @@ func (e *Engine) registerFSIntrinsics() {
 		}
 		panic(unsupported("ContainsAny on atom with multi-char set"))
 	}
+	in["strings.HasPrefix"] = func(r *Run, fr *frame, a []Value) Value {
+		s, pre := a[0].(StrV), a[1].(StrV)
+		if !s.hasAtom() && !pre.hasAtom() {
+			return r.callBody(fr, "strings", "HasPrefix", a)
+		}
+		if pre.isConcrete() && len(s.Segs) > 0 && s.Segs[0].Atom == nil && s.Segs[0].Byte == nil && len(s.Segs[0].Lit) >= len(pre.concrete()) {
+			return BoolV{C: strings.HasPrefix(s.Segs[0].Lit, pre.concrete())}
+		}
+		return BoolV{S: mk("str.prefixof", sortBool, pre.term(), s.term())}
+	}
 	in["strings.HasSuffix"] = func(r *Run, fr *frame, a []Value) Value {
 		s, suf := a[0].(StrV), a[1].(StrV)
 		if !s.hasAtom() && !suf.hasAtom() {
